@@ -87,7 +87,7 @@ func tryReplay(w *World, fr *FuncResult, o *Obligation, rp map[string]interface{
 	isPost := o.Kind == "post"
 	if isPost {
 		var cl *Clause
-		for _, c := range fr.Enc.fc.Ensures {
+		for _, c := range append(append([]*Clause{}, fr.Enc.fc.Ensures...), fr.Enc.fc.Claims...) {
 			if c.Text == o.Clause {
 				cl = c
 			}
